@@ -30,6 +30,8 @@ type tssModel struct {
 	sent     []*tssPkt       // packets this chain sent to the TSS chain
 	received map[uint64]bool // sequences accepted from the TSS chain
 	nextIn   uint64
+	cur      *node.Account // the account the client currently names as the TSS account (nil: the initial one)
+	pubkey   []byte        // group key the client currently holds
 }
 
 type tssInfo struct {
@@ -40,6 +42,8 @@ type tssInfo struct {
 	code    uint64
 	seq     uint64
 	counter bool
+	rotate  *node.Account // update: the account the header names
+	pubkey  []byte
 }
 
 func (w *world) tssName() string {
@@ -58,9 +62,17 @@ func (w *world) tssClient() (*tsstypes.ClientState, *tsstypes.ConsensusState) {
 
 func (w *world) tssOn(c *xchain) *tssModel {
 	if c.tssm == nil {
-		c.tssm = &tssModel{received: map[uint64]bool{}}
+		c.tssm = &tssModel{received: map[uint64]bool{}, cur: w.tss, pubkey: []byte{1, 2, 3}}
 	}
 	return c.tssm
+}
+
+// tssOther is the TSS group's other account: not (or no longer) the one the client names.
+func (w *world) tssOther(m *tssModel) *node.Account {
+	if m.cur == w.tss {
+		return w.tss2
+	}
+	return w.tss
 }
 
 var tssProofKinds = []string{"empty", "tss_address", "garbage", "signer_address"}
@@ -76,8 +88,16 @@ func (w *world) opTSS(op kernel.Op) {
 	var signer *node.Account
 	skind := "tss"
 	switch kernel.Mod(op.Arg(2), 5) {
-	case 0, 1:
-		signer = w.tss
+	case 0:
+		signer = m.cur
+	case 1:
+		if op.Arg(4)%3 == 0 {
+			// the group's other account: a registered relayer for that chain, but not (or, after a rotation, no
+			// longer) the account the client names
+			signer, skind = w.tssOther(m), "othertss"
+		} else {
+			signer = m.cur
+		}
 	case 2:
 		signer, skind = w.relayers[0], "relayer" // registered for the TSS chain as a relayer, but not the TSS account
 	case 3:
@@ -89,7 +109,7 @@ func (w *world) opTSS(op kernel.Op) {
 	var proof []byte
 	switch pkind {
 	case "tss_address":
-		proof = []byte(w.tss.Acc.String())
+		proof = []byte(m.cur.Acc.String())
 	case "garbage":
 		proof = []byte{0xde, 0xad, byte(op.Arg(4))}
 	case "signer_address":
@@ -99,13 +119,24 @@ func (w *world) opTSS(op kernel.Op) {
 	if op.Arg(1) >= 4 {
 		// an update of the TSS client (same TSS address, other key material): only the TSS account, and only
 		// while governance has it registered as relayer for that chain
-		hdr := &tsstypes.Header{TssAddress: w.tss.Acc.String(), Pubkey: []byte{9, byte(op.Arg(4))}, PartPubkeys: [][]byte{{4}, {5}}, Threshold: 2}
+		// or a rotation: the header names the group's other account, with new key material or with the group
+		// key unchanged (a resharing)
+		hdr := &tsstypes.Header{TssAddress: m.cur.Acc.String(), Pubkey: []byte{9, byte(op.Arg(4))}, PartPubkeys: [][]byte{{4}, {byte(op.Arg(4))}}, Threshold: 2}
+		named := m.cur
+		if op.Arg(3)%2 == 1 {
+			named = w.tssOther(m)
+			hdr.TssAddress = named.Acc.String()
+			w.rec.Fault("tss.rotation")
+		}
+		if op.Arg(4)%2 == 0 {
+			hdr.Pubkey = append([]byte(nil), m.pubkey...)
+		}
 		msg, err := clienttypes.NewMsgUpdateClient(name, hdr, signer.Acc)
 		if err != nil {
 			return
 		}
 		c.mempool = append(c.mempool, &intent{kind: "tssupdate", signer: signer, msgs: []sdk.Msg{msg},
-			tss: &tssInfo{what: "update", signer: skind}, desc: fmt.Sprintf("tss client update by %s", skind)})
+			tss: &tssInfo{what: "update", signer: skind, rotate: named, pubkey: hdr.Pubkey}, desc: fmt.Sprintf("tss client update by %s naming %s", skind, named.Label)})
 		return
 	}
 	switch kernel.Mod(op.Arg(1), 4) {
@@ -157,6 +188,14 @@ func (w *world) afterTSS(c *xchain, in *intent, out *txOutcome) {
 	t := in.tss
 	m := w.tssOn(c)
 	name := w.tssName()
+	// who the signer is is judged when the transaction executes: an earlier transaction of the same block
+	// may have rotated the TSS account
+	if in.signer == w.tss || in.signer == w.tss2 {
+		t.signer = "othertss"
+		if in.signer == m.cur {
+			t.signer = "tss"
+		}
+	}
 	w.rec.Logf("tss %s ok=%v (%s)", t.what, out.ok, in.desc)
 	switch t.what {
 	case "send":
@@ -223,7 +262,7 @@ func (w *world) afterTSS(c *xchain, in *intent, out *txOutcome) {
 		w.checkCounters(c)
 		w.checkDelta(c, "tss.recv", exp{})
 	case "update":
-		registered := c.registry[w.tss.Acc.String()][name] != ""
+		registered := c.registry[in.signer.Acc.String()][name] != ""
 		if !out.ok {
 			w.rec.Probe("tss.update_rejected." + t.signer)
 			return
@@ -234,6 +273,16 @@ func (w *world) afterTSS(c *xchain, in *intent, out *txOutcome) {
 			w.rec.Violate("C06", "tss_update_by_other_account", t.signer, "the TSS client was updated by %s, who is not the TSS account", t.signer)
 		} else if !registered {
 			w.rec.Violate("C06", "unauthorised_update", "tss_account_not_registered_for_chain", "the TSS client was updated by the TSS account although governance has not registered it as relayer for that chain")
+		}
+		if t.rotate != m.cur {
+			w.rec.Probe("tss.rotated")
+		}
+		m.cur, m.pubkey = t.rotate, t.pubkey
+		// the client now names the header's account
+		if cs, ok := c.App.XIBCKeeper.ClientKeeper.GetClientState(c.ReadCtx(), name); ok {
+			if tc, isTSS := cs.(*tsstypes.ClientState); isTSS && tc.TssAddress != m.cur.Acc.String() {
+				w.rec.Violate("C06", "tss_rotation_not_applied", "same_pubkey="+fmt.Sprint(string(tc.Pubkey) == string(t.pubkey)), "the TSS client accepted an update naming %s as TSS account but still names %s", m.cur.Acc.String(), tc.TssAddress)
+			}
 		}
 	case "ack":
 		if !out.ok {
